@@ -57,50 +57,40 @@ Definition root_of (t : tres node) : option (list N) :=
 
 Definition db_sx (db : pdb) : sx := SL (map (fun kv => SL [SB (fst kv); SB (snd kv)]) db).
 
-Definition run_query (tries : list (tres node)) (q : sx) : sx :=
+Definition run_query (tries : list (tres node * option (list N))) (q : sx) : sx :=
+  let with_trie (ti : sx) (f : node -> option (list N) -> sx) : sx :=
+    match sx_nat ti with
+    | Some i =>
+        match nth_error tries i with
+        | Some (TOk t, r) => f t r
+        | Some (TErr e, _) => serr e
+        | None => SErr 2
+        end
+    | None => SErr 1
+    end in
   match q with
   | SL [SI 0%Z; ti; SB k] =>
-      match sx_nat ti with
-      | Some i =>
-          match nth_error tries i with
-          | Some (TOk t) =>
-              match prove keccak256 no_resolve t k with
-              | TOk db => SL [SI 0%Z; db_sx db]
-              | TErr e => serr e
-              end
-          | Some (TErr e) => serr e
-          | None => SErr 2
-          end
-      | None => SErr 1
-      end
+      with_trie ti (fun t _ =>
+        match prove keccak256 no_resolve t k with
+        | TOk db => SL [SI 0%Z; db_sx db]
+        | TErr e => serr e
+        end)
   | SL [SI 1%Z; ti; SB k] =>
-      match sx_nat ti with
-      | Some i =>
-          match nth_error tries i with
-          | Some (TOk t) =>
-              match prove keccak256 no_resolve t k, hash_root keccak256 t with
-              | TOk db, Some r => vres_sx (verify_proof r k db)
-              | TErr e, _ => serr e
-              | _, None => serr EPanic
-              end
-          | Some (TErr e) => serr e
-          | None => SErr 2
-          end
-      | None => SErr 1
-      end
+      with_trie ti (fun t r =>
+        match prove keccak256 no_resolve t k, r with
+        | TOk db, Some r => vres_sx (verify_proof r k db)
+        | TErr e, _ => serr e
+        | _, None => serr EPanic
+        end)
   | SL [SI 2%Z; ti; SB k; SL db] =>
-      match sx_nat ti, opt_map kv_of db with
-      | Some i, Some d =>
-          match nth_error tries i with
-          | Some (TOk t) =>
-              match hash_root keccak256 t with
-              | Some r => vres_sx (verify_proof r k d)
-              | None => serr EPanic
-              end
-          | Some (TErr e) => serr e
-          | None => SErr 2
-          end
-      | _, _ => SErr 1
+      match opt_map kv_of db with
+      | Some d =>
+          with_trie ti (fun t r =>
+            match r with
+            | Some r => vres_sx (verify_proof r k d)
+            | None => serr EPanic
+            end)
+      | None => SErr 1
       end
   | SL [SI 3%Z; SB r; SB k; SL db] =>
       match opt_map kv_of db with
@@ -115,8 +105,9 @@ Definition C08_run (c : sx) : sx :=
   | SL [SL ts; SL qs] =>
       match opt_map build ts with
       | Some tries =>
-          SL [SL (map (fun t => match root_of t with Some r => SB r | None => SL [SI (-2)%Z; SI 2%Z] end) tries);
-              SL (map (run_query tries) qs)]
+          let tr := map (fun t => (t, root_of t)) tries in
+          SL [SL (map (fun t => match snd t with Some r => SB r | None => SL [SI (-2)%Z; SI 2%Z] end) tr);
+              SL (map (run_query tr) qs)]
       | None => SErr 0
       end
   | _ => SErr 0
